@@ -24,7 +24,8 @@ def build(kind, sys_seed, root):
             system.root_dir = root
         return system
     system, _ = systems.persist_chain_system(r, ncomp=r.randint(1, 3), name='sl', root_dir=root, norms=(kind == 'norms'),
-                                             no_surrogate_prob=(0.4 if kind == 'nosurr' else 0.0), costs=(kind == 'costs'), with_alpha=True)
+                                             no_surrogate_prob=(0.4 if kind == 'nosurr' else 0.0), costs=(kind == 'costs'), with_alpha=True,
+                                             grid_opts=True)      # non-default SparseGrid settings: they must survive a save made before a component is trained
     return system
 
 
@@ -63,6 +64,11 @@ def full_state(system):
     for c in system.components:
         st['components'][c.name]['model_kwargs'] = str(dict(c.model_kwargs.data)) if hasattr(c.model_kwargs, 'data') else str(c.model_kwargs)
         st['components'][c.name]['fidelity'] = (str(c.model_fidelity), str(c.data_fidelity), str(c.surrogate_fidelity))
+        if c.has_surrogate:      # the settings of the training data and of the interpolator are part of what a save must keep
+            td = c.training_data
+            st['components'][c.name]['training_data_settings'] = {k: str(getattr(td, k, None)) for k in
+                                                                  ('collocation_rule', 'knots_per_level', 'expand_latent_method', 'opt_args')}
+            st['components'][c.name]['interpolator'] = str(c.interpolator)
     return st
 
 
@@ -240,6 +246,27 @@ def run_resave_and_stale(ctx: Ctx):
             d = diff_states(late, full_state(la))
             if d:
                 ctx.violate('C12:resave-keeps-stale-data', f'saving twice under the same name: the loaded system differs from the live one in {d}', case)
+            # (c) two checkpoints under DIFFERENT file names in one directory, training in between: each file loads its own state
+            dirC = tmp / f'C{n}'; dirC.mkdir()
+            sys_c = build('plain', sys_seed, None)
+            np.random.seed(n)
+            sys_c.fit(max_iter=2, num_refine=8, max_tol=-1.0)
+            sys_c.save_to_file('early.yml', save_dir=dirC)
+            sys_c.fit(max_iter=3, num_refine=8, max_tol=-1.0)
+            sys_c.save_to_file('late.yml', save_dir=dirC)
+            os.chdir(tmp)
+            try:
+                for fname, want in (('early.yml', early), ('late.yml', late)):
+                    try:
+                        lc = System.load_from_file(dirC / fname)
+                    except Exception as e:
+                        ctx.violate('C12:load-raises', f'loading {fname} saved next to another checkpoint raised {type(e).__name__}: {e}', case); continue
+                    d = diff_states(want, full_state(lc))
+                    if d:
+                        ctx.violate('C12:checkpoints-in-one-directory-share-files', f'{fname}, saved in the same directory as another checkpoint of the '
+                                    f'same system, loads a state that differs from the one saved in {d}', case)
+            finally:
+                os.chdir(cwd0)
             # make dirA stale again (the early checkpoint) and load the moved dirB from inside dirA
             shutil.rmtree(dirA); dirA.mkdir()
             sys_early = build('plain', sys_seed, None)
